@@ -212,6 +212,9 @@ def ostep (o : OTbl) : Op → Option OTbl
   | .deleteColumn x => oDeleteColumn o x
   | .setCells x y m => oSetCells o x y m
   | .setValues x y m => oSetValues o x y m
+  -- `rstrip` ends with `self._indexes["_tmap"] = {}`; `transpose` starts with `self.clear()` (no wrapper survives)
+  | .rstrip a => some { t := Odf.Transform.tblRstrip (Odf.Transform.empOf a) o.t, tcache := [] }
+  | .transpose => some { t := Odf.Transform.tblTranspose o.t, tcache := [] }
 
 /-! ### reads (they fill the caches) -/
 
